@@ -121,6 +121,8 @@ pub struct Key {
     used: u8,
     alive: bool,
     reset_interrupted: bool,
+    /// driver's own note that a reset sequence is still to be repeated (hook)
+    reset_pending: bool,
 }
 
 fn mode_code(m: RadioMode) -> (u8, u32) {
@@ -228,10 +230,10 @@ impl Sys {
         }
     }
 
-    fn belief(&self) -> Option<(RadioMode, bool, bool)> {
+    fn belief(&self) -> Option<(RadioMode, bool, bool, bool)> {
         macro_rules! b {
             ($l:expr) => {
-                Some(($l.verif_radio_mode(), $l.verif_cold_start(), $l.verif_calibrate_image()))
+                Some(($l.verif_radio_mode(), $l.verif_cold_start(), $l.verif_calibrate_image(), $l.verif_reset_pending()))
             };
         }
         match &self.rig {
@@ -463,7 +465,7 @@ impl Sys {
             }
             Ok(r) => r,
         };
-        let Some((d, _cold, _cal)) = self.belief() else { return out };
+        let Some((d, _cold, _cal, _rp)) = self.belief() else { return out };
         // ---- classify the return
         let refused = matches!(&res, Some(Err(e)) if e.contains("InvalidRadioMode"));
         let unsupported = matches!(&res, Some(Err(e)) if e.contains("DutyCycleUnsupported") || e.contains("NoRxParams"));
@@ -670,9 +672,9 @@ impl System for Sys {
     }
 
     fn key(&self) -> Key {
-        let (d, cold, cal) = self.belief().unwrap_or((RadioMode::Sleep, true, true));
+        let (d, cold, cal, reset_pending) = self.belief().unwrap_or((RadioMode::Sleep, true, true, false));
         let (dc, da) = mode_code(d);
-        Key { d: dc, d_arg: da, cold, cal, chip: self.obs().fingerprint, k: self.k, cont: self.continuous, used: self.used, alive: self.alive, reset_interrupted: self.reset_interrupted }
+        Key { d: dc, d_arg: da, cold, cal, chip: self.obs().fingerprint, k: self.k, cont: self.continuous, used: self.used, alive: self.alive, reset_interrupted: self.reset_interrupted, reset_pending }
     }
 
     fn alive(&self) -> bool {
